@@ -46,12 +46,36 @@ def roundtrip_cases(tier, seed, res):
     for n in summary["ellipsoids_in_code_not_enumerated"]:
         res.uncovered.append("ellipsoid in the code's table not enumerated by spec/RoundTrip.tla: " + n)
     res.assumptions.append("round trips: thresholds are those of the C01 statement (exact 0; rigorous 10 um; btmerc/butm/omerc/cart above 100 km "
-                           "1 mm; molodensky 5 mm) on the ground: angular residuals x semimajor axis, projected residuals divided by the local "
+                           "1 mm; molodensky 20 mm for |lat| <= 80) on the ground: angular residuals x semimajor axis, projected residuals divided by the local "
                            "linear scale (finite differences); longitudes compared modulo 360 degrees")
     res.assumptions.append("round trips: somerc and omerc have no documented domain: +-3 degrees (somerc) / +-6 x +-3 degrees (omerc) around the centre; "
                            "geodesic reversible up to 10 000 km; cart and geodesic are not evaluated on `unitsphere` (metre lattices of heights "
                            "and distances are meaningless on a sphere of radius 1 m)")
+    cases = [x for x in rows if not x.get("group") and not x.get("summary")]
+    kf = {k["id"]: k for k in vlib.known_findings("C01")}
+
+    def known(g):
+        """A group of failing round trips is a known finding iff EVERY failing case in it matches the
+        finding's signature (so a different failure of the same operator is still reported)."""
+        mine = [c for c in cases if (c["fam"], c["shape"], c["order"], c["what"]) == (g["fam"], g["shape"], g["order"], g["what"])]
+        if not mine:
+            return None
+        for fid, k in kf.items():
+            sg = k.get("signature", {})
+            if sg.get("family") != g["fam"] or g["what"] != "residual":
+                continue
+            ok = all((c.get("residual_m") or 1e9) <= sg["max_residual_m"]
+                     and ("lat" not in sg or c["detail"]["pt"][1] in sg["lat"])
+                     and ("ellps" not in sg or c.get("ellps") in sg["ellps"]) for c in mine)
+            if ok:
+                return fid
+        return None
+
     for g in groups:
+        fid = known(g)
+        if fid:
+            res.add_known(fid, kf[fid]["what"])
+            continue
         wst = g["worst"]
         res.add_violation({"suite": "roundtrip", "what": g["what"], "def": wst.get("def"), "order": g["order"], "family": g["fam"],
                            "shape": g["shape"], "failing": g["failing"], "of": g["of"], "ellipsoids": g["ellps"],
